@@ -8,7 +8,7 @@ import re
 from ..core import Checker, Rule, attr_calls, callee_is, calls_in, kwarg, resolved_calls, short
 from ..grammar import schema
 from ..interp import Pins, find_nodes, unparse
-from .util import ancestors, effect_table, enclosing_loop, enclosing_stmt, enum_members, every_iteration_reaches, fmt, is_const, parent, returns_of, self_attr_for_param, single_def
+from .util import ancestors, effect_table, enclosing_loop, enclosing_stmt, enum_members, every_iteration_reaches, fmt, is_const, parent, returns_of, same, self_attr_for_param, single_def
 
 P = ("C15", "C01")
 PG = ("C15", "C02", "C01")
@@ -171,7 +171,7 @@ def r_good_table(ck: Checker) -> None:
     ok = it.holds(site, c4)
     ck.add("G4 no sibling tuple may unify", ok, func, site, f"dominated by `{c4}`: {ok}", "set semantics of aggregate tuples")
     rest = single_def(func, "rest_elems")
-    ck.add("siblings = all other elements", rest is not None and unparse(rest).replace(" ", "") == f"[elemforelemin{atom}.elementsifelem!=replace_elem]", func, site, f"rest_elems = `{unparse(rest) if rest is not None else None}`", "")
+    ck.add("siblings = all other elements", rest is not None and same(unparse(rest), f"[elem for elem in {atom}.elements if elem != replace_elem]"), func, site, f"rest_elems = `{unparse(rest) if rest is not None else None}`", "")
     els = kwarg(site, "elements")
     ck.add("new elements = untouched siblings + unfolded elements", els is not None and unparse(els).replace(" ", "") == "rest_elems+new_elements", func, site, f"`{unparse(els) if els is not None else None}`", "")
 
